@@ -3,6 +3,7 @@ package rules
 import (
 	"fmt"
 	"go/token"
+	"go/types"
 	"strings"
 
 	"golang.org/x/tools/go/ssa"
@@ -496,8 +497,71 @@ func (c *Ctx) decoderIsConversion(d *ssa.Function) bool {
 	return ok && n > 0
 }
 
+// c01DecodeContext: R6 — the application and dictionary a message is decoded with stay the same on the way down:
+// every function of package diam that takes (application uint32, dictionary *dict.Parser) hands exactly those two
+// on when it calls another such function (grouped members, wrappers). A group whose members are resolved under
+// another application than the message's loses the definitions the more specific application declares: the bytes
+// still round-trip but the members come back as Unknown blobs.
+func (c *Ctx) c01DecodeContext() {
+	r := c.R
+	ctxOf := func(f *ssa.Function) (app, dic *ssa.Parameter) {
+		if byteParam(f) == nil {
+			return nil, nil // not a decode step: it is given no bytes
+		}
+		for i := 0; i+1 < len(f.Params); i++ {
+			bt, isB := f.Params[i].Type().Underlying().(*types.Basic)
+			pt, isP := f.Params[i+1].Type().(*types.Pointer)
+			if isB && bt.Kind() == types.Uint32 && isP && flow.TypeIs(pt.Elem(), pkgDict, "Parser") {
+				return f.Params[i], f.Params[i+1]
+			}
+		}
+		return nil, nil
+	}
+	n := 0
+	for _, f := range c.P.LibraryFuncs() {
+		if pkgOf(f).Path() != pkgDiam {
+			continue
+		}
+		fa, fd := ctxOf(f)
+		if fa == nil {
+			continue
+		}
+		for _, ci := range flow.CallInstrs(f) {
+			g := flow.StaticCallee(ci)
+			if g == nil || pkgOf(g) == nil || pkgOf(g).Path() != pkgDiam {
+				continue
+			}
+			ga, gd := ctxOf(g)
+			if ga == nil {
+				continue
+			}
+			ia, id := paramIndex(g, ga), paramIndex(g, gd)
+			args := ci.Common().Args
+			if ia >= len(args) || id >= len(args) {
+				continue
+			}
+			n++
+			key := fmt.Sprintf("%s:context-handed-on-to-%s", fname(f), g.Name())
+			okA := flow.Peel(args[ia]) == ssa.Value(fa) || (spilledParam(args[ia]) != nil && spilledParam(args[ia]) == fa)
+			okD := flow.Peel(args[id]) == ssa.Value(fd) || (spilledParam(args[id]) != nil && spilledParam(args[id]) == fd)
+			switch {
+			case !okA:
+				r.Fail("R6", key, c.pos(ci), "the application handed on to "+g.Name()+" is not the one this function was given ("+short(args[ia].String(), 40)+"): nested AVPs are resolved under another application than the message's, so definitions the message's application declares are missed and the members come back as Unknown")
+			case !okD:
+				r.Fail("R6", key, c.pos(ci), "the dictionary handed on to "+g.Name()+" is not the one this function was given")
+			default:
+				r.Ok("R6", key, c.pos(ci), "application and dictionary handed on unchanged")
+			}
+		}
+	}
+	if n == 0 {
+		r.Trivial("R6", "decode-context:no-site", "-", "no decode function hands an (application, dictionary) pair on")
+	}
+}
+
 func (c *Ctx) c01Opaque(ar *ssa.Function) {
 	r := c.R
+	c.c01DecodeContext()
 	// placeholder on the not-found exit
 	f := c.P.Method("diam/dict", "Parser", "FindAVPWithVendor")
 	found := false
@@ -585,6 +649,54 @@ func (c *Ctx) c01Opaque(ar *ssa.Function) {
 			})
 		}
 		r.Check(good, "R6", key, c.fpos(ar), "the lookup error aborts decoding only on the edge where no dictionary AVP (not even the placeholder) was returned", "the AVP decoder aborts on a dictionary miss even though an Unknown placeholder is available: messages with unknown AVPs cannot be read")
+		// a lookup step that hands the definition back hands back what this lookup found (or nil) — not a
+		// definition kept from an earlier AVP: codes are shared between vendors, and a remembered definition of
+		// the same code decodes the payload with another AVP's data type
+		if lookup != nil && lookupFn != ar && lookupFn.Signature.Results().Len() >= 1 {
+			if pt, ok := lookupFn.Signature.Results().At(0).Type().(*types.Pointer); ok && flow.TypeIs(pt.Elem(), pkgDict, "AVP") {
+				k2 := fname(lookupFn) + ":definition-is-this-lookup's"
+				bad := ""
+				var at ssa.Instruction = lookup
+				var expand func(v ssa.Value, d int) []ssa.Value
+				expand = func(v ssa.Value, d int) []ssa.Value {
+					if ph, ok := v.(*ssa.Phi); ok && d < 5 {
+						var out []ssa.Value
+						for _, e := range ph.Edges {
+							if e != ssa.Value(ph) {
+								out = append(out, expand(e, d+1)...)
+							}
+						}
+						return out
+					}
+					if ld, ok := v.(*ssa.UnOp); ok && ld.Op == token.MUL {
+						if _, isAl := ld.X.(*ssa.Alloc); isAl {
+							var out []ssa.Value
+							for _, sv := range flow.SpillSources(ld) {
+								out = append(out, expand(sv, d+1)...)
+							}
+							return out
+						}
+					}
+					return []ssa.Value{v}
+				}
+				flow.Instrs(lookupFn, func(in ssa.Instruction) {
+					ret, ok := in.(*ssa.Return)
+					if !ok || len(ret.Results) == 0 || ret.Block() == lookupFn.Recover || bad != "" {
+						return
+					}
+					for _, v := range expand(ret.Results[0], 0) {
+						if flow.IsNilConst(v) {
+							continue
+						}
+						if ex, ok := v.(*ssa.Extract); ok && ex.Index == 0 && ex.Tuple == ssa.Value(lookup) {
+							continue
+						}
+						bad, at = "the lookup step "+lookupFn.Name()+" can hand back a definition that is not the result of this lookup ("+short(v.String(), 40)+"): a definition remembered from an earlier AVP of the same code — another vendor's, another type's — decodes this AVP's payload", ret
+					}
+				})
+				r.Check(bad == "", "R6", k2, c.pos(at), "every definition the lookup step returns is the result of its own FindAVPWithVendor call", bad)
+			}
+		}
 	}
 }
 
